@@ -131,10 +131,10 @@ Section InertBlocks.
       - auto.
       - intros x _ s x' s'. apply IH. }
     cbn [block_visit] in H.
-    destruct n as [tg cs]. destruct tg as [k lo hi| | | | | |]; try (eapply CH; eassumption).
-    destruct k; try (eapply CH; eassumption).
+    destruct n as [tg cs]. destruct tg as [k lo hi| | | | | |]; try (first [eapply CH; eassumption | destruct (leaf _); [inversion H; subst; exact Q | eapply CH; eassumption]]).
+    destruct k; try (first [eapply CH; eassumption | destruct (leaf _); [inversion H; subst; exact Q | eapply CH; eassumption]]).
     - (* KBlock *)
-      destruct cs as [|cx [|[[| | | | | |] stmts] [|? ?]]]; try (eapply CH; eassumption).
+      destruct cs as [|cx [|[[| | | | | |] stmts] [|? ?]]]; try (first [eapply CH; eassumption | destruct (leaf _); [inversion H; subst; exact Q | eapply CH; eassumption]]).
       destruct (status_eqb (t_status t) Cancelled); [inversion H; subst; exact Q|].
       destruct (map_st (op_visit c f true) [cx; Node Lst stmts] {| o_p := p_init; o_t := t |})
         as [[l s]|] eqn:E; [|discriminate].
@@ -153,7 +153,7 @@ Section InertBlocks.
       destruct (status_eqb (t_status t) Cancelled).
       + eapply CH; eassumption.
       + unfold arrow_transform in H.
-        destruct cs as [|cx [|params [|body [|asy [|gen [|tp [|rt [|? ?]]]]]]]]; try (eapply CH; eassumption).
+        destruct cs as [|cx [|params [|body [|asy [|gen [|tp [|rt [|? ?]]]]]]]]; try (first [eapply CH; eassumption | destruct (leaf _); [inversion H; subst; exact Q | eapply CH; eassumption]]).
         destruct (is_kind KBlock body); eapply CH; eassumption.
     - (* KIdent *)
       destruct (ident_sym (Node (K KIdent lo hi) cs)); [|inversion H; subst; exact Q].
